@@ -39,7 +39,7 @@ def run_demo():
         if dst.exists():
             shutil.rmtree(dst)
         shutil.copytree(src, dst)
-        r = subprocess.run(["sh", str(dst / "demo.sh")], cwd=wt, env=env,
+        r = subprocess.run(["bash", str(dst / "demo.sh")], cwd=wt, env=env,
                            capture_output=True, text=True, timeout=3600)
     elif (src / "demo.py").exists():
         r = subprocess.run(["/venv/bin/python", str(src / "demo.py")], cwd=wt,
